@@ -295,7 +295,7 @@ def _written_blocks(repo, fname):
 @guarded
 def rule_blocks(repo):
     res = RuleResult('C05.BLOCKS', 'Sim3: the algebra adjoint ad(x) and the group adjoint Adj(X) = exp(ad) are written block by block and share '
-                     'their block sparsity pattern (rotation-scale block, translation x rotation block, translation column, rotation block)', floor=2)
+                     'their block sparsity pattern (rotation-scale block, translation x rotation block, translation column, rotation block); every block of ad is filled from the tangent component ad(tau, phi, sigma) has there', floor=9)
     A, _ = _written_blocks(repo, 'Sim3_Adj')
     a, inl = _written_blocks(repo, 'sim3_adj')
     # blocks provided by a base matrix taken from a sibling helper count as written
@@ -310,6 +310,79 @@ def rule_blocks(repo):
     res.inst({'function': 'sim3_adj', 'blocks': sorted(a)}, 'adj')
     missing = sorted(A - a)
     extra = sorted(a - A)
+    # which component of the tangent vector fills which block.  ad(xi) for xi = (tau, phi, sigma) in the layout of the type table is
+    #   [[phi^ + sigma I, tau^, -tau], [0, phi^, 0], [0, 0, 0]]   (se3: the upper-left 6 x 6 without sigma)
+    # the component positions come from the layout table extracted from the type classes, the slices from the inlined stores of the helper
+    from ..layout import extract_table
+    table = extract_table(repo)
+    WANT = {'sim3_adj': {(0, 0): {'phi', 'sigma'}, (0, 3): {'tau'}, (0, 6): {'tau'}, (3, 3): {'phi'}},
+            'se3_adj': {(0, 0): {'phi'}, (0, 3): {'tau'}, (3, 3): {'phi'}}}
+
+    def lo(e):
+        e = e.replace(' ', '')
+        return int(e.split(':')[0] or 0) if ':' in e else int(e)
+    for fname, want in WANT.items():
+        g = repo.func(OP, fname)
+        slots = table[fname[:-4]]['slots']
+        dim = table[fname[:-4]]['dim']
+        arg = g.pos_params[0]
+        blocks = []
+        inl_g = inline_straight(g.node)
+        for bk, idx, val, st in inl_g.stores:
+            if not (isinstance(idx, ast.Tuple) and len(idx.elts) == 3):
+                continue
+            try:
+                blocks.append(((lo(src(idx.elts[1])), lo(src(idx.elts[2]))), val, st))
+            except ValueError:
+                continue
+        if not blocks:
+            # the other form the file uses (se3_Jl_inv): rows of 3 x 3 blocks concatenated along -1, the rows along -2
+            rets = returns_of(g.node)
+            rvv = inl_g.value(rets[0].value) if len(rets) == 1 and rets[0].value is not None else None
+
+            def cat_parts(e, dim):
+                if isinstance(e, ast.Call) and dotted(e.func) in ('torch.cat', 'torch.concat', 'torch.concatenate') and e.args and isinstance(e.args[0], (ast.Tuple, ast.List)):
+                    d = next((k.value for k in e.keywords if k.arg == 'dim'), e.args[1] if len(e.args) > 1 else None)
+                    d = d.operand.value * -1 if isinstance(d, ast.UnaryOp) and isinstance(d.op, ast.USub) and isinstance(d.operand, ast.Constant) else None
+                    if d == dim:
+                        return list(e.args[0].elts)
+                return None
+            rows = cat_parts(rvv, -2) if rvv is not None else None
+            if rows is None or dim % 3:
+                raise AnalysisError('C05.BLOCKS: %s neither writes its blocks into a buffer nor returns rows of 3 x 3 blocks concatenated along -1 / -2' % fname)
+            for i, r in enumerate(rows):
+                cols = cat_parts(r, -1)
+                if cols is None:
+                    raise AnalysisError('C05.BLOCKS: row %d of the matrix returned by %s is not a concatenation of blocks along -1' % (i, fname))
+                for j, c in enumerate(cols):
+                    blocks.append(((3 * i, 3 * j), c, rets[0]))
+        for key, val, st in blocks:
+            roles = set()
+            # a zero block written as zeros_like(<another block>) takes only the extents of its argument
+            shells = [c for c in ast.walk(val) if isinstance(c, ast.Call) and (dotted(c.func) or '').split('.')[-1] in ('zeros_like', 'zeros', 'new_zeros')]
+            inert = {id(y) for c in shells for y in ast.walk(c)}
+            for n in ast.walk(val):
+                if id(n) in inert:
+                    continue
+                if isinstance(n, ast.Subscript) and isinstance(n.value, ast.Name) and n.value.id == arg and isinstance(n.slice, ast.Tuple) and len(n.slice.elts) == 2:
+                    e = n.slice.elts[1]
+                    if isinstance(e, ast.Slice):
+                        a = e.lower.value if isinstance(e.lower, ast.Constant) else 0 if e.lower is None else None
+                        b = e.upper.value if isinstance(e.upper, ast.Constant) else dim if e.upper is None else None
+                    elif isinstance(e, ast.Constant) and isinstance(e.value, int):
+                        a, b = e.value % dim, e.value % dim + 1
+                    else:
+                        a = b = None
+                    if a is None or b is None:
+                        roles.add('?')
+                        continue
+                    roles |= {r for r, x, y in slots if x < b and a < y}
+            res.inst({'function': fname, 'block (row, col) origin': key, 'filled from components': sorted(roles), 'ad(tau, phi, sigma) has there': sorted(want.get(key, ()))},
+                     (fname, key))
+            if roles != want.get(key, set()):
+                res.add(Finding('C05.BLOCKS', g, '%s fills block %s of ad from the %s component(s) of its argument (layout %s); ad(tau, phi, sigma) has %s there: the helper '
+                                'reads its argument in another component order than Log / Exp / Adj of the type write it' % (
+                                    fname, key, sorted(roles), [(r, x, y) for r, x, y in slots], sorted(want.get(key, ())) or 'zero'), node=st, construct='%s block %s components' % (fname, key)))
     if missing or extra:
         res.add(Finding('C05.BLOCKS', f, 'sim3_adj writes blocks %s while Sim3_Adj writes %s: missing %s, extra %s - ad and Adj of the same group must '
                         'have the same block pattern' % (sorted(a), sorted(A), missing, extra), construct='blocks missing %s extra %s' % (missing, extra)))
@@ -319,6 +392,48 @@ def rule_blocks(repo):
 def rule_jlimit(repo):
     from ..limits import rule_limit
     return rule_limit(repo, 'C05.LIMIT', [(OP, 'so3_Jl'), (OP, 'so3_Jl_inv'), (OP, 'calcQ')], floor=6, decided_floor=6)
+
+
+@guarded
+def rule_wide(repo):
+    """The tensor added to a LieTensor may be WIDER than the manifold dimension; the components beyond it are ignored (a `.grad`-width buffer, a padded vector).  The
+    slicing happens in the add_ of the type.  Before that, LieTensor.add / add_ therefore read no VALUE of the full-width tensor: it is scaled by alpha, its shape is
+    read, and it is handed on.  A test or a selection computed from all its components (isfinite, norm, any, where) lets the ignored slots decide."""
+    res = RuleResult('C05.WIDE', 'LieTensor.add / add_ do not read the values of the full-width `other` (beyond scaling it by alpha and reading its shape) before the type\'s '
+                     'add_ slices it to the manifold dimension: the ignored trailing components cannot influence the result', floor=2)
+    for q in ('LieTensor.add', 'LieTensor.add_'):
+        f = repo.func(LT, q)
+        o = f.pos_params[1]
+        names = {o}
+        # names bound to alpha * other (still full width)
+        for n in ast.walk(f.node):
+            if isinstance(n, ast.Assign) and len(n.targets) == 1 and isinstance(n.targets[0], ast.Name) and isinstance(n.value, ast.BinOp) and isinstance(n.value.op, ast.Mult) and \
+                    any(isinstance(x, ast.Name) and x.id in names for x in (n.value.left, n.value.right)):
+                names.add(n.targets[0].id)
+        bad = []
+        parents = {}
+        for n in ast.walk(f.node):
+            for c in ast.iter_child_nodes(n):
+                parents[c] = n
+        for n in ast.walk(f.node):
+            if isinstance(n, ast.Name) and n.id in names and isinstance(n.ctx, ast.Load):
+                p = parents.get(n)
+                ok = False
+                if isinstance(p, ast.BinOp) and isinstance(p.op, ast.Mult):
+                    ok = True                                               # alpha * other
+                elif isinstance(p, ast.Attribute) and p.attr in ('shape', 'dtype', 'device', 'ndim'):
+                    ok = True
+                elif isinstance(p, ast.keyword) and p.arg == 'other':
+                    ok = True                                               # handed on: .add_(other = other)
+                elif isinstance(p, ast.Call) and n in p.args and isinstance(p.func, ast.Attribute) and p.func.attr in ('add_', 'add'):
+                    ok = True
+                if not ok:
+                    bad.append((n, p))
+        res.inst({'function': f.fq, 'full-width names': sorted(names), 'value reads before the slice': len(bad)}, f.fq)
+        for n, p in bad:
+            res.add(Finding('C05.WIDE', f, '`%s` reads the values of the full-width added tensor `%s` before the type\'s add_ slices it: components beyond the manifold '
+                            'dimension, which the contract ignores, take part in the result' % (src(p)[:60], n.id), node=n, construct='full-width value read|' + src(p)[:40]))
+    return res
 
 
 @guarded
@@ -358,7 +473,7 @@ def rule_alpha(repo):
 
 
 def _rules_core(repo, tier):
-    return [rule_fwd(repo), rule_retr_add(repo), rule_jinv(repo), rule_clone(repo), rule_dt(repo), rule_adj(repo), rule_blocks(repo), rule_jlimit(repo), rule_alpha(repo), __import__('sa.limits', fromlist=['x']).rule_bernoulli(repo, 'C05.BERN', OP, [('sim3_Jl', 'sim3_Jl_inv', 'sim3_adj')])] + rule_jr(repo)
+    return [rule_fwd(repo), rule_retr_add(repo), rule_jinv(repo), rule_clone(repo), rule_dt(repo), rule_adj(repo), rule_blocks(repo), rule_jlimit(repo), rule_alpha(repo), rule_wide(repo)] + list(rule_masks(repo, 'C05.MPW', 'C05.GDW', [(OP, 'rxso3_Ws')], floor=1)) + [ __import__('sa.limits', fromlist=['x']).rule_bernoulli(repo, 'C05.BERN', OP, [('sim3_Jl', 'sim3_Jl_inv', 'sim3_adj')])] + rule_jr(repo)
 
 
 def rules(repo, tier):
@@ -368,7 +483,7 @@ def rules(repo, tier):
     from ..callsig import rule_callsig
     from ..docsig import rule_docsig
     from ..axisdefault import rule_axisdefault
-    return list(_rules_core(repo, tier)) + [rule_memo(repo, 'C05.MEMO', 'history independence: nothing computed from the contents of a tensor argument is kept '
+    return list(_rules_core(repo, tier)) + __import__('sa.core', fromlist=['x']).reid([__import__('sa.rules.c06', fromlist=['x']).rule_bcast(repo, tier, 'C05')], 'C05') + [rule_memo(repo, 'C05.MEMO', 'history independence: nothing computed from the contents of a tensor argument is kept '
                                                       'under the identity, address or version of that tensor, in module-level storage, or published from a generator '
                                                       'before it is complete - a later call with the same object and other contents must not be answered from it',
                                                       ['pypose.lietensor.lietensor', 'pypose.lietensor.operation', 'pypose.lietensor.basics', 'pypose.lietensor.utils'], floor=3),
